@@ -445,6 +445,7 @@ func (c *c03Collect) wrapper(q string) (string, error) {
 		xe.elem[s.src(rs.Value)] = true
 	case rs.Value == nil && rs.Key != nil:
 		xe.elem[recv+"["+s.src(rs.Key)+"]"] = true
+		xe.elemLval = recv + "[" + s.src(rs.Key) + "]"
 	default:
 		return "", s.errf(rs, "range form")
 	}
